@@ -6,7 +6,7 @@ LEVEL = "proof"
 
 def run(ctx):
     npat = 900 if ctx.quick() else 6000
-    generic.standard(ctx, ["Props_C02", "Props_PikeSpan"], "rx", "api-vs-regexp", lists=(), model=True, ledger="known/C02.ledger",
+    generic.standard(ctx, ["Props_C02", "Props_PikeSpan", "Props_DfaPrio"], "rx", "api-vs-regexp", lists=(), model=True, ledger="known/C02.ledger",
                      extra_args=["-prop", "C02", "-patterns", npat, "-haystacks", 24])
     # L0: the Gallina model of the Thompson compiler (Compile.v) applied to the pattern's AST must be the SAME automaton as the
     # NFA dumped from the real compiler (nfa_eqb), and the observed search results must equal find_at on it (list M)
